@@ -38,6 +38,10 @@ def build_tree(rng, with_all):
         add("t/all/clean.html", b"<html>\n<head>\n<title>x</title>\n</head>\n</html>\n")
         add("t/all/broken.zip", b"PK\x03\x04 this is not a zip")
         add("t/all/broken.pyc", samples.dirty_pyc()[:40])
+        # two handlers, one file: only the first finds something to change / only the second does
+        d = samples.dirty_pyc()
+        add("t/all/mtime0-dirty-payload.pyc", d[:8] + b"\0\0\0\0" + d[12:])
+        add("t/all/mtime-set-clean-payload.pyc", d[:16] + b"N")
     return t, files
 
 
@@ -111,7 +115,7 @@ def run(ctx):
     n = 0
     samples_out = []
     configs = [(MODELLED, False, []), (MODELLED, False, ["-j2"]), (None, True, []), (None, True, ["-j4"]), (["gzip"], False, []), (["-gzip"], True, []),
-               (["pyc", "pyc-zero-mtime"], True, []), (MODELLED, False, ["--check"])]
+               (["pyc", "pyc-zero-mtime"], True, []), (["pyc", "pyc-zero-mtime"], True, ["-j2"]), (["pyc", "pyc-zero-mtime"], True, ["-j5"]), (MODELLED, False, ["--check"])]
     reference = {}
     for hsel, with_all, mode in configs:
         t, files = build_tree(rng, with_all)
